@@ -8,6 +8,7 @@
     Nothing in here ever writes the findings files.
 """
 
+import glob
 import hashlib
 import json
 import os
@@ -26,11 +27,14 @@ class Findings:
     def __init__(self, path: str = FILE):
         self.entries = []
         self.fixed = []
-        if os.path.exists(path):
-            with open(path, encoding="utf-8") as handle:
+        paths = [path] + sorted(glob.glob(os.path.join(os.path.dirname(path), "known_findings.d", "*.json")))
+        for one in paths:
+            if not os.path.exists(one):
+                continue
+            with open(one, encoding="utf-8") as handle:
                 data = json.load(handle)
-            self.entries = data.get("findings", [])
-            self.fixed = data.get("fixed", [])
+            self.entries += data.get("findings", [])
+            self.fixed += data.get("fixed", [])
         self._cases = {}
         for entry in self.entries:
             keys = set()
